@@ -7,6 +7,10 @@
   `create_key` (look up, on a miss forward and store); "with a caching session every read returns
   the same data as with a plain session" is `C18_cache_transparent_*`, for all histories.
   Outside the model: adapter dispatch, expiry, status/method filters, serialisation of the store.
+  Metadata consolidation: `PydapModel/Consolidate.lean`, the model of `consolidate_metadata` — what it DECLARES to the
+  key closure (base, shared constraints) and which GETs it issues; `C18_consolidate_*`, `C18_declared_*`,
+  `C18_consolidated_*`.  Outside the model: the thread pool (order of GETs inside a phase), the DMR text → dimensions
+  step (C11), HTTP status handling of the pre-fetch.
 -/
 import PydapModel.Proxy
 import PydapModel.CacheKey
@@ -14,6 +18,8 @@ import Proofs.Proxy
 import Proofs.CacheKey
 import PydapModel.Cache
 import Proofs.Cache
+import PydapModel.Consolidate
+import Proofs.Consolidate
 namespace Pydap.C18
 open Pydap Pydap.Proxy
 
@@ -167,6 +173,214 @@ theorem C18_cache_trace {α κ ρ : Type} [DecidableEq κ] (key : α → κ) (se
       (runTrace key server cache urls).length = urls.length ∧ (wire key server cache urls).Sublist urls :=
   ⟨runTrace_resp key server urls cache, runTrace_length key server urls cache, wire_sublist key server urls cache⟩
 
+
+/-! ### metadata consolidation: what is declared, and what it can collide with -/
+open Pydap.Cons
+
+/-- **What `consolidate_metadata` declares.**  When it patches the session (`result = ok (some decl)`): the declared
+    constraints are exactly `d[0:1:n-1]` (rendered as the code renders them, `declText`) for the dimensions (d, n) of the
+    FIRST file's DMR — not of any later file —, the declared base is `compute_base_url_prefix` of all URLs, the DMR of
+    every URL is fetched, and the pre-fetch requests are exactly those constraints on the first file. -/
+theorem C18_consolidate_declares (files : List FileIn) (decl : Decl)
+    (h : (consolidate true files).result = .ok (some decl)) :
+    ∃ f0 rest, files = f0 :: rest ∧ rest ≠ [] ∧
+      (∀ c, c ∈ decl.shared ↔ ∃ d n, f0.dims.lookup d = some n ∧ c = declText d n) ∧
+      computeBase f0 files = .ok decl.base ∧
+      (consolidate true files).dmrGets = files.map dmrReq ∧
+      (∀ r, r ∈ (consolidate true files).dimGets ↔ ∃ d n, f0.dims.lookup d = some n ∧ r = dimReq f0 d n) := by
+  obtain ⟨f0, rest, sized, hf, hr, _, _, hsz, _, hb, hsh, hdmr, hdim⟩ := consolidate_some h
+  have hs := sizesInFirst_ok hsz
+  have hmem : ∀ d n, f0.dims.lookup d = some n → (d, n) ∈ sized := by
+    intro d n hl
+    have hd : d ∈ dimsUnion files := mem_dimsUnion.2 ⟨f0, by rw [hf]; exact List.mem_cons_self, n, lookup_mem' hl⟩
+    rw [← hs.1] at hd
+    obtain ⟨p, hp, rfl⟩ := List.mem_map.1 hd
+    have := hs.2 p hp
+    rw [hl] at this
+    cases this
+    exact hp
+  refine ⟨f0, rest, hf, hr, ?_, hb, hdmr, ?_⟩
+  · intro c
+    rw [hsh, List.mem_map]
+    constructor
+    · rintro ⟨p, hp, rfl⟩; exact ⟨p.1, p.2, hs.2 p hp, rfl⟩
+    · rintro ⟨d, n, hl, rfl⟩; exact ⟨(d, n), hmem d n hl, rfl⟩
+  · intro r
+    rw [hdim, List.mem_map]
+    constructor
+    · rintro ⟨p, hp, rfl⟩; exact ⟨p.1, p.2, hs.2 p hp, rfl⟩
+    · rintro ⟨d, n, hl, rfl⟩; exact ⟨(d, n), hmem d n hl, rfl⟩
+
+/-- a session that is not a `CachedSession` is left alone: no GET, nothing declared -/
+theorem C18_consolidate_plain_session (files : List FileIn) :
+    (consolidate false files).result = .ok none ∧ (consolidate false files).dmrGets = [] ∧
+      (consolidate false files).dimGets = [] := ⟨rfl, rfl, rfl⟩
+
+/-- **n ≥ 1: the declared constraint is the whole dimension array, and only that.**  For a dimension (d, n), n ≥ 1:
+    (a) the declared text is literally the constraint a client read of `d[0:1:n-1]` sends (`hyperslab` prints start,
+        step, stop-1);
+    (b) on an array of length n it selects every position;
+    (c) a read of any variable `v` (names without '[') with any hyperslabs has that constraint text only if it is the
+        variable `d` read from 0 with step 1 through n-1 — so no read of a proper part of the array (some position of
+        `0..n-1` left out) has it. -/
+theorem C18_declared_whole (d : List Char) (n : Nat) (hn : 1 ≤ n) (hd : '[' ∉ d) :
+    declText d n = ceText d [(0, 1, n - 1)] ∧
+    (∀ i, i < n → i ∈ slabSel n (0, 1, n - 1)) ∧
+    (∀ v slabs, '[' ∉ v → ceText v slabs = declText d n → v = d ∧ slabs = [(0, 1, n - 1)]) ∧
+    (∀ t : Nat × Nat × Nat, (∃ i, i < n ∧ i ∉ slabSel n t) → ceText d [t] ≠ declText d n) := by
+  refine ⟨declText_eq_ceText d hn, ?_, fun v slabs hv h => ceText_eq_declText hn hv hd h, ?_⟩
+  · intro i hi; rw [mem_slabSel]; simp only [Nat.zero_le, Nat.sub_zero, Nat.mod_one, true_and, and_true]; omega
+  · rintro t ⟨i, hi, hni⟩ h
+    have := (ceText_eq_declText hn hd hd h).2
+    simp only [List.cons.injEq, and_true] at this
+    subst this
+    apply hni; rw [mem_slabSel]; simp only [Nat.zero_le, Nat.sub_zero, Nat.mod_one, true_and, and_true]; omega
+
+/-- on a longer array (a later file whose dimension is longer) the same text selects the first n positions only -/
+theorem C18_declared_prefix (n m i : Nat) (hn : 1 ≤ n) : i ∈ slabSel m (0, 1, n - 1) ↔ i < m ∧ i < n := by
+  rw [mem_slabSel]; simp only [Nat.zero_le, Nat.sub_zero, Nat.mod_one, true_and, and_true]; omega
+
+/-- **n = 0.**  A dimension of size 0 in the first file is declared as `d[0:1:-1]` (`str(0 - 1)`), and that text is
+    the constraint of NO client read (names without '['; a read prints three non-negative numbers per axis): in
+    particular not of `d[0:1:0]`, the read of element 0 of `d` in another file. -/
+theorem C18_declared_zero (d : List Char) (hd : '[' ∉ d) :
+    declText d 0 = d ++ ['[', '0', ':', '1', ':', '-', '1', ']'] ∧
+    ∀ v slabs, '[' ∉ v → ceText v slabs ≠ declText d 0 :=
+  ⟨declText_zero d, fun _ slabs hv => ceText_ne_declText_zero slabs hv hd⟩
+
+/-- **After consolidation two requests share a cache entry only if** they have the same URL, or both carry the same
+    constraint `d[0:1:n-1]` of a dimension (d, n) OF THE FIRST FILE, on one scheme and host, both under the base
+    `compute_base_url_prefix` declared (or both in one Earthdata collection). -/
+theorem C18_consolidated_cache_key (orig : List Char → List Char) (horig : ∀ a b, orig a = orig b → a = b)
+    (files : List FileIn) (decl : Decl) (h : (consolidate true files).result = .ok (some decl)) (r1 r2 : CK.Req)
+    (hk : keyAfter orig decl r1 = keyAfter orig decl r2) :
+    r1.url = r2.url ∨
+      ∃ f0 rest d n, files = f0 :: rest ∧ f0.dims.lookup d = some n ∧
+        r1.ce = some (declText d n) ∧ r2.ce = some (declText d n) ∧ r1.scheme = r2.scheme ∧ r1.host = r2.host ∧
+        ((underBase (some decl.base) r1 = true ∧ underBase (some decl.base) r2 = true) ∨
+         (r1.host = earthdataHost ∧ r2.host = earthdataHost ∧
+            ∃ coll, findCollection r1.path = some coll ∧ findCollection r2.path = some coll)) := by
+  obtain ⟨f0, rest, hf, _, hsh, _⟩ := C18_consolidate_declares files decl h
+  rcases C18_cache_key orig horig decl.shared (some decl.base) r1 r2 hk with e | ⟨hce, c, hc, hin, hs, hh, hu⟩
+  · exact Or.inl e
+  · obtain ⟨d, n, hl, rfl⟩ := (hsh c).1 hin
+    exact Or.inr ⟨f0, rest, d, n, hf, hl, hc, hce ▸ hc, hs, hh, hu⟩
+
+/-- … and for two client reads (`BaseProxyDap4.__getitem__`; variable and dimension names without '['): they share an
+    entry only if they are the same request, or both read the SAME dimension array `d` of the first file's declaration
+    WHOLE (`[0:1:n-1]`, n ≥ 1) on one host.  A dimension of size 0 in the first file lets nothing be shared; reads of
+    element 0 (`[0:1:0]`) are shared only when the first file declares that dimension with size 1. -/
+theorem C18_consolidated_reads_share (orig : List Char → List Char) (horig : ∀ a b, orig a = orig b → a = b)
+    (files : List FileIn) (decl : Decl) (h : (consolidate true files).result = .ok (some decl))
+    (g1 g2 : FileIn) (v1 v2 : List Char) (s1 s2 : List (Nat × Nat × Nat))
+    (hv1 : '[' ∉ v1) (hv2 : '[' ∉ v2) (hnames : ∀ f ∈ files, ∀ p ∈ f.dims, '[' ∉ p.1)
+    (hk : keyAfter orig decl (readReq g1 v1 s1) = keyAfter orig decl (readReq g2 v2 s2)) :
+    (readReq g1 v1 s1).url = (readReq g2 v2 s2).url ∨
+      ∃ f0 rest d n, files = f0 :: rest ∧ f0.dims.lookup d = some n ∧ 1 ≤ n ∧
+        v1 = d ∧ v2 = d ∧ s1 = [(0, 1, n - 1)] ∧ s2 = [(0, 1, n - 1)] ∧ g1.host = g2.host := by
+  rcases C18_consolidated_cache_key orig horig files decl h _ _ hk with e | ⟨f0, rest, d, n, hf, hl, h1, h2, _, hh, _⟩
+  · exact Or.inl e
+  · have hd : '[' ∉ d := hnames f0 (by rw [hf]; exact List.mem_cons_self) (d, n) (lookup_mem' hl)
+    simp only [readReq, Option.some.injEq] at h1 h2 hh
+    rcases Nat.eq_zero_or_pos n with rfl | hn
+    · exact absurd h1 (ceText_ne_declText_zero s1 hv1 hd)
+    · have a1 := ceText_eq_declText hn hv1 hd h1
+      have a2 := ceText_eq_declText hn hv2 hd h2
+      exact Or.inr ⟨f0, rest, d, n, hf, hl, hn, a1.1, a2.1, a1.2, a2.2, hh⟩
+
+/-- **Caching never changes results — consolidated session, any read history over any files.**  The session is the one
+    `consolidate_metadata` leaves behind: the store holds the DMR answers (stored through the unpatched key) and then
+    serves the pre-fetch requests and any history `reads` of further GETs (reads of any variables of any files, DMRs, …)
+    through the patched key.  Hypotheses: `horig` (unpatched key injective on request identities), `hfun` (the server is
+    a function of the request identity) and the EXPLICIT ASSUMPTION ABOUT THE DATA `hagree`: for every dimension (d, n)
+    of the FIRST file, two requests with the declared constraint `d[0:1:n-1]` on one scheme and host, both under the
+    declared base (or in one Earthdata collection), get the same answer — the files agree on the declared dimension
+    arrays.  Nothing is assumed about any other constraint (in particular nothing about `d[0:1:0]` when n ≠ 1).
+    Then every answer of the pre-fetch and of the history through the caching session is the plain session's. -/
+theorem C18_consolidated_transparent {ρ : Type} (orig : List Char → List Char)
+    (horig : ∀ a b, orig a = orig b → a = b) (files : List FileIn) (decl : Decl)
+    (h : (consolidate true files).result = .ok (some decl)) (server : CK.Req → ρ) (reads : List CK.Req)
+    (hfun : ∀ r1 r2, r1 ∈ (consolidate true files).dmrGets ++ (consolidate true files).dimGets ++ reads →
+      r2 ∈ (consolidate true files).dmrGets ++ (consolidate true files).dimGets ++ reads →
+      r1.url = r2.url → server r1 = server r2)
+    (hagree : ∀ f0 rest d n, files = f0 :: rest → f0.dims.lookup d = some n →
+      ∀ r1 r2, r1 ∈ (consolidate true files).dmrGets ++ (consolidate true files).dimGets ++ reads →
+        r2 ∈ (consolidate true files).dmrGets ++ (consolidate true files).dimGets ++ reads →
+        r1.ce = some (declText d n) → r2.ce = some (declText d n) → r1.scheme = r2.scheme → r1.host = r2.host →
+        ((underBase (some decl.base) r1 = true ∧ underBase (some decl.base) r2 = true) ∨
+         (r1.host = earthdataHost ∧ r2.host = earthdataHost ∧
+            ∃ coll, findCollection r1.path = some coll ∧ findCollection r2.path = some coll)) →
+        server r1 = server r2) :
+    (runCached (keyAfter orig decl) server
+        (runCached (keyBefore orig) server [] (consolidate true files).dmrGets).2
+        ((consolidate true files).dimGets ++ reads)).1
+      = runPlain server ((consolidate true files).dimGets ++ reads) := by
+  refine (C18_cache_transparent_consolidated (keyAfter orig decl) (·.url)
+    (fun r1 r2 => ∃ f0 rest d n, files = f0 :: rest ∧ f0.dims.lookup d = some n ∧
+        r1.ce = some (declText d n) ∧ r2.ce = some (declText d n) ∧ r1.scheme = r2.scheme ∧ r1.host = r2.host ∧
+        ((underBase (some decl.base) r1 = true ∧ underBase (some decl.base) r2 = true) ∨
+         (r1.host = earthdataHost ∧ r2.host = earthdataHost ∧
+            ∃ coll, findCollection r1.path = some coll ∧ findCollection r2.path = some coll)))
+    server (· ∈ (consolidate true files).dmrGets ++ (consolidate true files).dimGets ++ reads)
+    (fun r1 r2 _ _ hk => C18_consolidated_cache_key orig horig files decl h r1 r2 hk)
+    (fun r1 r2 h1 h2 ⟨f0, rest, d, n, hf, hl, c1, c2, hs, hh, hu⟩ => hagree f0 rest d n hf hl r1 r2 h1 h2 c1 c2 hs hh hu)
+    hfun _ (cacheInv_after_dmr orig horig decl server _ _ (fun u hu => by simp [hu]) hfun) _ ?_).1
+  intro u hu
+  rw [List.append_assoc]
+  exact List.mem_append_right _ hu
+
+/-- **The declared base contains the collection, and the declaration is effective.**  URL paths as `urlparse` gives them
+    (starting with '/').  After consolidation: the base is on the first file's host; every read request and DMR/pre-fetch
+    request of every file of the collection on that host passes the containment test of `custom_create_key`; and (outside
+    Earthdata) the whole read of a declared dimension array `d[0:1:n-1]` (n ≥ 1) from ANY such file gets exactly the key under
+    which the pre-fetch stored the first file's array — so it is answered from the store (`C18_cache_trace`), which is
+    what `hagree` of `C18_consolidated_transparent` is about. -/
+theorem C18_consolidated_base_contains (orig : List Char → List Char) (files : List FileIn) (decl : Decl)
+    (h : (consolidate true files).result = .ok (some decl))
+    (hslash : ∀ g ∈ files, ∃ r, g.path = '/' :: r) :
+    ∃ f0 rest, files = f0 :: rest ∧ decl.base.host = f0.host ∧
+      (∀ f ∈ files, f.host = f0.host → ∀ v slabs, underBase (some decl.base) (readReq f v slabs) = true) ∧
+      (∀ d n, underBase (some decl.base) (dimReq f0 d n) = true) ∧
+      (f0.host ≠ earthdataHost → ∀ f ∈ files, f.host = f0.host → ∀ d n, f0.dims.lookup d = some n → 1 ≤ n →
+        keyAfter orig decl (readReq f d [(0, 1, n - 1)]) = keyAfter orig decl (dimReq f0 d n)) := by
+  obtain ⟨f0, rest, sized, hf, _, _, _, hsz, _, hb, hsh, _, _⟩ := consolidate_some h
+  have hs := sizesInFirst_ok hsz
+  have hf0 : f0 ∈ files := by rw [hf]; exact List.mem_cons_self
+  have hhost : decl.base.host = f0.host := (computeBase_under hb hslash hf0 []).1
+  have hread : ∀ f ∈ files, f.host = f0.host → ∀ v slabs, underBase (some decl.base) (readReq f v slabs) = true := by
+    intro f hfm hh v slabs
+    simp only [underBase, readReq, Bool.and_eq_true]
+    exact ⟨decide_eq_true (hh.trans hhost.symm), (computeBase_under hb hslash hfm _).2⟩
+  have hdim : ∀ d n, underBase (some decl.base) (dimReq f0 d n) = true := by
+    intro d n
+    simp only [underBase, dimReq, Bool.and_eq_true]
+    exact ⟨decide_eq_true hhost.symm, (computeBase_under hb hslash hf0 _).2⟩
+  refine ⟨f0, rest, hf, hhost, hread, hdim, ?_⟩
+  intro hne f hfm hh d n hl hn
+  have hin : declText d n ∈ decl.shared := by
+    rw [hsh, List.mem_map]
+    have hd : d ∈ dimsUnion files := mem_dimsUnion.2 ⟨f0, hf0, n, lookup_mem' hl⟩
+    rw [← hs.1] at hd
+    obtain ⟨p, hp, rfl⟩ := List.mem_map.1 hd
+    have := hs.2 p hp
+    rw [hl] at this
+    cases this
+    exact ⟨p, hp, rfl⟩
+  exact (cacheKey_shared_hit orig decl.shared decl.base (readReq f d [(0, 1, n - 1)]) (dimReq f0 d n) (declText d n)
+    (by rw [declText_eq_ceText d hn]; rfl) rfl hin rfl hh (by simpa [readReq, hh] using hne)
+    (hread f hfm hh _ _) (hdim d n)).1
+
+
+/-- `hagree` cannot be dropped: two files under `/data` whose `t` differ (the server echoes the URL): the whole read of `t`
+    from the second file through the consolidated session returns the pre-fetched array of the first -/
+theorem C18_consolidated_needs_agree :
+    ¬ (∀ (server : CK.Req → List Char) (reads : List CK.Req),
+        (∀ r1 r2 : CK.Req, r1.url = r2.url → server r1 = server r2) →
+        (runCached (keyAfter id exDecl) server (runCached (keyBefore id) server [] (consolidate true exFiles).dmrGets).2
+            ((consolidate true exFiles).dimGets ++ reads)).1
+          = runPlain server ((consolidate true exFiles).dimGets ++ reads)) :=
+  consolidated_needs_agree
+
 /-! ### non-vacuity -/
 example : SessInv (some 3) (openHeap ['u'] [] (some 3) ['s'] [['i']] [(['a'], [2], true)]) :=
   C18_open_session _ _ _ _ _ _
@@ -207,5 +421,47 @@ example : (runTrace (fun u : Nat => u) (fun u => 10 * u) [] [1, 2, 1]) = [(false
   ⟨by decide, C18_cache_transparent_url _ _ _ (fun _ _ _ _ h => h)⟩
 /-- a non-injective key does change results (why the hypothesis is there) -/
 example : (runCached (fun _ : Nat => 0) (fun u => 10 * u) [] [1, 2]).1 ≠ runPlain (fun u => 10 * u) [1, 2] := by decide
+
+/-- consolidation of two files: `t` of size 2 in the first (declared `t[0:1:1]`), base `/data` -/
+example : (consolidate true exFiles).result = .ok (some exDecl) ∧ exDecl.shared = [declText "t".toList 2] ∧
+    (consolidate true exFiles).dimGets = [dimReq exFileA "t".toList 2] := ⟨exFiles_result, rfl, exFiles_dimGets⟩
+/-- a first file with an empty dimension declares `t[0:1:-1]`; a file list of one URL, mixed schemes, a dimension
+    missing in the first file and files without a common directory do not patch -/
+example : (consolidate true [exFileZ, exFileB]).result = .ok (some ⟨exDecl.base, [declText "t".toList 0]⟩) ∧
+    (consolidate true [exFileA]).result = .error .typeError ∧
+    (consolidate true [{ exFileA with scheme := httpLit }, exFileB]).result = .error .valueError ∧
+    (consolidate true [{ exFileA with dims := [] }, exFileB]).result = .error .keyError ∧
+    (consolidate true [{ exFileA with path := "/A.nc".toList }, exFileB]).result = .error .valueError :=
+  ⟨by rfl, by rfl, by rfl, by rfl, by rfl⟩
+/-- the whole read of `t` from the second file gets the key of the pre-fetch (the consolidation is not vacuous);
+    the read of element 0 does not -/
+example : keyAfter id exDecl (readReq exFileB "t".toList [(0, 1, 1)]) = keyAfter id exDecl (dimReq exFileA "t".toList 2) ∧
+    keyAfter id exDecl (readReq exFileB "t".toList [(0, 1, 0)]) ≠ keyAfter id exDecl (readReq exFileA "t".toList [(0, 1, 0)]) :=
+  ⟨exKey_shared, exKey_elem0⟩
+example : (runCached (keyAfter id exDecl) (fun _ => ()) (runCached (keyBefore id) (fun _ => ()) [] (consolidate true exFiles).dmrGets).2
+      ((consolidate true exFiles).dimGets ++ [readReq exFileB "t".toList [(0, 1, 1)], readReq exFileB "t".toList [(0, 1, 0)]])).1
+    = runPlain (fun _ => ()) ((consolidate true exFiles).dimGets ++ [readReq exFileB "t".toList [(0, 1, 1)], readReq exFileB "t".toList [(0, 1, 0)]]) :=
+  C18_consolidated_transparent id (fun _ _ h => h) exFiles exDecl exFiles_result _ _ (fun _ _ _ _ _ => rfl)
+    (fun _ _ _ _ _ _ _ _ _ _ _ _ _ _ _ => rfl)
+/-- the scenario of an empty first file: `t` of size 0 in the first file, then reads of element 0 of `t` from two other
+    files never share an entry (`C18_consolidated_reads_share`: the only declared dimension has n = 0) -/
+example (hk : keyAfter id ⟨exDecl.base, [declText "t".toList 0]⟩ (readReq exFileA "t".toList [(0, 1, 0)]) =
+    keyAfter id ⟨exDecl.base, [declText "t".toList 0]⟩ (readReq exFileB "t".toList [(0, 1, 0)])) : False := by
+  rcases C18_consolidated_reads_share id (fun _ _ h => h) [exFileZ, exFileB] _ (by rfl) exFileA exFileB _ _ _ _
+    (by decide) (by decide) (by decide) hk with e | ⟨f0, rest, d, n, hf, hl, hn, _⟩
+  · revert e; decide
+  · cases hf
+    simp only [exFileZ, exFileA, List.lookup] at hl
+    split at hl
+    · cases hl; omega
+    · cases hl
+/-- the hypotheses of `C18_consolidated_base_contains` hold for the example collection -/
+example : ∀ g ∈ exFiles, ∃ r, g.path = '/' :: r := by
+  intro g hg
+  simp only [exFiles, List.mem_cons, List.not_mem_nil, or_false] at hg
+  rcases hg with rfl | rfl
+  · exact ⟨_, rfl⟩
+  · exact ⟨_, rfl⟩
+example : 1 ∉ slabSel 3 (0, 1, 0) ∧ slabSel 3 (0, 1, 2) = [0, 1, 2] ∧ slabSel 5 (0, 1, 2) = [0, 1, 2] := by decide
 
 end Pydap.C18
